@@ -30,7 +30,9 @@ F12(t, E) ==
            dup == Eq(a.E, b.E) \/ (i > 1 /\ Eq(t[i - 1].E, a.E) /\ Eq(E, a.E)) \/ (i + 2 <= Len(t) /\ Eq(t[i + 2].E, b.E) /\ Eq(E, b.E))
        IN IF dup THEN [f1 |-> [k |-> "skip"], f2 |-> [k |-> "skip"]]             \* exactly on a duplicated edge energy
           ELSE [f1 |-> IF IsNone(a.f1) /\ IsNone(b.f1) THEN [k |-> "nan"]
-                       ELSE IF IsNone(a.f1) \/ IsNone(b.f1) THEN [k |-> "skip"]
+                       \* strictly between a flagged (-9999) row and a tabulated one f1 is not tabulated: NaN, never a number
+                       \* made from the flag; exactly on the tabulated node the documentation is silent
+                       ELSE IF IsNone(a.f1) \/ IsNone(b.f1) THEN (IF Lt(a.E, E) /\ Lt(E, b.E) THEN [k |-> "nan"] ELSE [k |-> "skip"])
                        ELSE [k |-> "num", v |-> Lin(a.E, b.E, a.f1, b.f1, E)],
                 f2 |-> [k |-> "num", v |-> Lin(a.E, b.E, a.f2, b.f2, E)]]
 Agree(got, want, scale) == want.k = "skip" \/ (want.k = "nan" /\ got.k = "nan")
@@ -77,6 +79,7 @@ F0Clause(e) ==
   IF e.at0.k # "num" \/ Gt(Abs(Sub(e.at0.v, FromInt(e.z - e.q))), Sci(5, -2)) THEN "F0AtZeroIsElectronCount"
   ELSE IF e.beyond.k # "nan" THEN "F0BeyondRangeIsNaN"
   ELSE IF e.inside.k # "num" \/ e.inside.v.s <= 0 \/ Gt(e.inside.v, Add(FromInt(e.z - e.q), One)) THEN "F0InsideRangeIsFinite"
+  ELSE IF "edge" \in DOMAIN e /\ e.edge.k # "num" THEN "F0AtRangeEndIsFinite"       \* Q = 24 pi is inside the closed range
   ELSE "ok"
 KClause == IF Close(HC, Mul(Mul(Hdr.consts.plancks_constant, Hdr.consts.speed_of_light), Sci(1, 7)), -13) THEN "ok" ELSE "HCWitness"
 Emit(id, c) == c # "ok" => PrintT("@@" \o ToJson([id |-> id, clause |-> c]))
